@@ -79,6 +79,17 @@ def constructors():
             A, B=np.vstack([np.ones(A.shape[0]), np.arange(A.shape[0]) % 3 - 1.0]).T.copy(), **kw), False, 'hermitian'),
         ('sa-naive', lambda A, **kw: pyamg.smoothed_aggregation_solver(A, aggregate='naive', **kw), False, 'hermitian'),
         ('rootnode', lambda A, **kw: pyamg.rootnode_solver(A, **kw), False, 'hermitian'),
+        # per-level option lists LONGER than max_levels - 1: the surplus entries are unused, the level cap stands
+        ('sa-strength-list', lambda A, **kw: pyamg.smoothed_aggregation_solver(
+            A, strength=[('symmetric', {'theta': 0.0}), 'symmetric', ('symmetric', {'theta': 0.0}), 'symmetric'], **kw), False, 'hermitian'),
+        ('rootnode-strength-list', lambda A, **kw: pyamg.rootnode_solver(
+            A, strength=['symmetric', ('symmetric', {'theta': 0.0}), 'symmetric', 'symmetric', 'symmetric'], **kw), False, 'hermitian'),
+        ('pairwise-aggregate-list', lambda A, **kw: pyamg.pairwise_solver(
+            sp.csr_array(A), aggregate=[('pairwise', {'theta': 0.25, 'norm': 'min', 'matchings': 2}) for _ in range(4)], **kw), False, 'hermitian'),
+        # prolongation smoothing with the other Jacobi weightings (no filtering): the level matrix must come out untouched
+        ('sa-jacobi-local', lambda A, **kw: pyamg.smoothed_aggregation_solver(A, smooth=('jacobi', {'weighting': 'local'}), **kw), False, 'hermitian'),
+        ('sa-jacobi-block', lambda A, **kw: pyamg.smoothed_aggregation_solver(A, smooth=('jacobi', {'weighting': 'block'}), **kw), False, 'hermitian'),
+        ('sa-richardson', lambda A, **kw: pyamg.smoothed_aggregation_solver(A, smooth=('richardson', {'omega': 1.0}), **kw), False, 'hermitian'),
         ('pairwise', lambda A, **kw: pyamg.pairwise_solver(sp.csr_array(A), **kw), False, 'hermitian'),
     ]
 
@@ -193,7 +204,9 @@ def run(ctx):
               (c[0] == 'classical-cljp' and i[0] in ('poisson2d-6x5', 'diag-12')) or
               (c[0].startswith('classical-nostrength') and i[0] in ('poisson2d-6x5', 'aniso-6x6')) or
               (c[0] == 'air-filter' and i[2] == 'nonsym') or
-              (c[0] in ('sa', 'sa-2cands') and i[0] in ('poisson-6x6-bsr2', 'poisson2d-6x5'))]
+              (c[0] in ('sa', 'sa-2cands') and i[0] in ('poisson-6x6-bsr2', 'poisson2d-6x5')) or
+              (c[0] in ('sa-strength-list', 'rootnode-strength-list', 'pairwise-aggregate-list', 'sa-jacobi-local', 'sa-jacobi-block',
+                        'sa-richardson') and i[0] in ('poisson2d-6x5', 'aniso-6x6'))]
     rng = ctx.sub('pick')
     rest = [x for x in combos if x not in forced]
     if not (ctx.thorough or ctx.search):
@@ -291,6 +304,27 @@ def run(ctx):
         ctx.case(('MultilevelSolver-no-R', iname), len(ml.levels) >= 2)
         ctx.count('constructor:MultilevelSolver')
         structure_oracle(ctx, 'MultilevelSolver', ml, A, hier.dense_of(A).copy(), 'hermitian', len(levels), case)
+    # the symmetry argument of every call counts, also on a matrix object an earlier call has already seen
+    for iname, A, kind in ins:
+        if kind != 'spd' or iname not in ('complex-rot-5x4', 'poisson2d-6x5'):
+            continue
+        for first, second, rk in (('symmetric', 'hermitian', 'hermitian'), ('hermitian', 'symmetric', 'transpose'),
+                                  ('nonsymmetric', 'symmetric', 'transpose'), ('nonsymmetric', 'hermitian', 'hermitian')):
+            for cname_, ctor in (('sa', pyamg.smoothed_aggregation_solver), ('rootnode', pyamg.rootnode_solver)):
+                Aobj = A.copy()
+                case = dict(constructor=cname_, input=iname, symmetry_sequence=[first, second])
+                ctx.mark(case)
+                try:
+                    np.random.seed(ctx.seed)
+                    ctor(Aobj, symmetry=first, max_coarse=3)
+                    np.random.seed(ctx.seed)
+                    ml = ctor(Aobj, symmetry=second, max_coarse=3)
+                except Exception as e:   # noqa
+                    ctx.fail('constructor-raises/%s/symmetry-sequence' % cname_, repr(e), case)
+                    continue
+                ctx.case(('symmetry-sequence', cname_, iname, first, second), len(ml.levels) >= 2)
+                ctx.count('constructor:symmetry-sequence')
+                structure_oracle(ctx, cname_ + '-symseq', ml, Aobj, hier.dense_of(A).copy(), rk, 10, case)
     ctx.corr_relations = ['level sizes of constructor(A, max_levels, max_coarse) == Hierarchy.build on the sizes observed in an unconstrained build (exact)']
     bad, errs = cq.run_cases('c04', HEADER, 'caseT', 'chk', cases, shard=1000)
     for e in errs:
